@@ -812,14 +812,38 @@ class Interp:
         return SDict(concrete=d, fresh=True)
 
     def ev_JoinedStr(self, e, fr):
-        # f-strings are only modelled when every part is concrete; otherwise the result is an opaque str
+        # f-strings: constant parts and plain replacement fields {x} of str / non-negative int values are modelled;
+        # anything else (format specs, conversions, other types) makes the result an opaque str
+        from .ops import str_term
         parts = []
+        symbolic = False
         for v in e.values:
             if isinstance(v, ast.Constant):
                 parts.append(v.value)
-            else:
-                return SOpaque("str")
-        return "".join(parts)
+                continue
+            if isinstance(v, ast.FormattedValue) and v.format_spec is None and v.conversion == -1:
+                val = self.ev(v.value, fr)
+                if isinstance(val, str):
+                    parts.append(val)
+                    continue
+                if isinstance(val, int) and not isinstance(val, bool):
+                    parts.append(str(val))
+                    continue
+                if isinstance(val, SStr) and val.kind == "str":
+                    parts.append(val)
+                    symbolic = True
+                    continue
+                if isinstance(val, SInt):
+                    t = to_term_int(val)
+                    self.cx.oblige(f"{self.cx.tag}#call_pre:int_in_fstring_is_non_negative", t >= 0, kind="call_pre")
+                    parts.append(SStr(z3.IntToStr(t)))
+                    symbolic = True
+                    continue
+            return SOpaque("str")
+        if not symbolic:
+            return "".join(parts)
+        terms = [str_term(p) for p in parts if not (isinstance(p, str) and p == "")]
+        return SStr(z3.Concat(*terms) if len(terms) > 1 else terms[0])
 
     def ev_FormattedValue(self, e, fr):
         return SOpaque("str")
@@ -955,6 +979,9 @@ class Interp:
         if isinstance(obj, SInt):
             return SFunc("builtin", f"int.{attr}", self_obj=obj)
         if isinstance(obj, SModule):
+            for k, fn in self.cx.ghost.get("module_attrs", {}).items():
+                if f"{obj.name}.{attr}".endswith(k):
+                    return fn(self.cx)
             return SFunc("builtin", f"{obj.name}.{attr}")
         if isinstance(obj, SClass):
             ci = self.index.find_class(obj.name)
